@@ -339,8 +339,11 @@ def suite_sizes(tier, seed):
                         n += 1
                         op = {"k": k, "n": sz, "o": False} if k == "ab" else {"k": k, "s": s, "a": a, "n": sz, "o": False}
                         ops = list(shape) + [op, AB(8), {"k": "at", "s": 8, "a": 8, "o": False}]
-                        drivers.append({"id": "sz:%s:%s:%d:%s:%d:%d" % (layout, kind, si, k, s, sz),
-                                        "cfg": cfg_for(layout, kind, be, cap=cap), "ops": ops})
+                        cfg = cfg_for(layout, kind, be, cap=cap)
+                        # the retry budget of the slow path (Options::with_maximum_retries, any u8): a failing request is
+                        # retried that many times and must then report the same clean error
+                        cfg["retries"] = [5, 0, 1, 255][n % 4]
+                        drivers.append({"id": "sz:%s:%s:%d:%s:%d:%d" % (layout, kind, si, k, s, sz), "cfg": cfg, "ops": ops})
     return drivers
 
 
